@@ -77,8 +77,12 @@ contract(
                                       "L_sq(SUM(self._X, j, cuts[i, 0], cuts[i, 1]), self.sums_[cuts[i, 1], j] - self.sums_[cuts[i, 0], j]), "
                                       "L_sq(SUM(self._X, j, cuts[i, 1], cuts[i, 2]), self.sums_[cuts[i, 2], j] - self.sums_[cuts[i, 1], j]), "
                                       "L_sq(SUM(self._X, j, cuts[i, 0], cuts[i, 2]), self.sums_[cuts[i, 2], j] - self.sums_[cuts[i, 0], j]), "
+                                      "have(result[i, j] ** 2 == SUM(self._X, j, cuts[i, 0], cuts[i, 1]) ** 2 / (cuts[i, 1] - cuts[i, 0])"
+                                      " + SUM(self._X, j, cuts[i, 1], cuts[i, 2]) ** 2 / (cuts[i, 2] - cuts[i, 1])"
+                                      " - SUM(self._X, j, cuts[i, 0], cuts[i, 2]) ** 2 / (cuts[i, 2] - cuts[i, 0]), "
+                                      "SSQ(self._X, j, cuts[i, 0], cuts[i, 2]) == SSQ(self._X, j, cuts[i, 0], cuts[i, 1]) + SSQ(self._X, j, cuts[i, 1], cuts[i, 2]), "
                                       "result[i, j] ** 2 == RSS(self._X, j, cuts[i, 0], cuts[i, 2])"
-                                      " - RSS(self._X, j, cuts[i, 0], cuts[i, 1]) - RSS(self._X, j, cuts[i, 1], cuts[i, 2])))",
+                                      " - RSS(self._X, j, cuts[i, 0], cuts[i, 1]) - RSS(self._X, j, cuts[i, 1], cuts[i, 2]))))",
     },
     props=["C06", "C13"],
 )
